@@ -185,16 +185,17 @@ func rewriting(o op, t *table) bool {
 // operations of its region are not generated (counted in excluded_known); the replay witnesses
 // re-confirm each finding.
 const (
-	fPkOrdinals   = "C21-pk-ordinals-shared"         // in-place change of a primary-key column / ADD COLUMN before one corrupts the key ordinals of older schema copies; later statements panic
-	fDropUniqCol  = "C21-drop-unique-column-no-pk"   // DROP COLUMN of a member of a UNIQUE index on a table without primary key panics
-	fDropPkColumn = "C21-drop-pk-column"             // DROP COLUMN of a member of the primary key panics
-	fRewriteIdx   = "C21-rewrite-index-exprs"        // MODIFY/CHANGE that rewrites the table: a renamed column leaves its indexes, a changed type is not propagated to them
-	fAddColIdx    = "C21-add-column-index-positions" // ADD COLUMN before an indexed column: the index keeps reading the old position for new rows
-	fAddUnique    = "C21-add-unique-key-schema"      // ADD UNIQUE over columns that are not the table's leading columns checks the key values against the wrong column types
-	fPkOrder      = "C21-rename-pk-column-order"     // renaming a non-first primary-key column moves it to the front of the key
-	fStaleIdxTbl  = "C21-index-pk-suffix-stale"      // a rewrite that moves a primary-key column leaves the secondary indexes reading the key from the old position
-	fRenameTbl    = "C21-rename-table-index-exprs"   // RENAME TABLE renumbers the index expressions 0,1,.. instead of keeping the column positions
-	fEmptyString  = "C21-empty-string-to-number"     // MODIFY of a VARCHAR column holding '' to a numeric type succeeds and stores 0
+	fPkOrdinals     = "C21-pk-ordinals-shared"         // in-place change of a primary-key column / ADD COLUMN before one corrupts the key ordinals of older schema copies; later statements panic
+	fDropUniqCol    = "C21-drop-unique-column-no-pk"   // DROP COLUMN of a member of a UNIQUE index on a table without primary key panics
+	fDropPkColumn   = "C21-drop-pk-column"             // DROP COLUMN of a member of the primary key panics
+	fRewriteIdx     = "C21-rewrite-index-exprs"        // MODIFY/CHANGE that rewrites the table: a renamed column leaves its indexes, a changed type is not propagated to them
+	fAddColIdx      = "C21-add-column-index-positions" // ADD COLUMN before an indexed column: the index keeps reading the old position for new rows
+	fAddUnique      = "C21-add-unique-key-schema"      // ADD UNIQUE over columns that are not the table's leading columns checks the key values against the wrong column types
+	fPkOrder        = "C21-rename-pk-column-order"     // renaming a non-first primary-key column moves it to the front of the key
+	fStaleIdxTbl    = "C21-index-pk-suffix-stale"      // a rewrite that moves a primary-key column leaves the secondary indexes reading the key from the old position
+	fRenameTbl      = "C21-rename-table-index-exprs"   // RENAME TABLE renumbers the index expressions 0,1,.. instead of keeping the column positions
+	fEmptyString    = "C21-empty-string-to-number"     // MODIFY of a VARCHAR column holding '' to a numeric type succeeds and stores 0
+	fModifyIdxStore = "C21-modify-index-storage-stale" // in-place MODIFY of the type of an indexed column leaves the index storage holding values of the old type
 )
 
 func pkPositions(t *table) string {
@@ -220,7 +221,7 @@ func inAnyIndex(t *table, col string) bool {
 // reference model expects after the operation (nil when it must fail).
 func regions(o op, t *table, next *table) []string {
 	var out []string
-	pkMoves := next != nil && len(t.pk) > 0 && len(next.pk) > 0 && pkPositions(t) != pkPositions(next)
+	pkMoves := next != nil && pkPositions(t) != pkPositions(next)
 	switch x := o.(type) {
 	case opDropColumn:
 		if t.inPK(x.name) {
@@ -263,11 +264,15 @@ func regions(o op, t *table, next *table) []string {
 		if t.inPK(x.name) && x.col.name != x.name && t.pk[0] != x.name {
 			out = append(out, fPkOrder)
 		}
-		if rewritten && inAnyIndex(t, x.name) && (x.col.name != x.name || x.col.typ.text() != old.typ.text()) {
+		typeChanged := x.col.typ.text() != old.typ.text() || x.col.typ.coll != old.typ.coll
+		if rewritten && inAnyIndex(t, x.name) && (x.col.name != x.name || typeChanged) {
 			out = append(out, fRewriteIdx)
 		}
 		if pkMoves && len(t.idx) > 0 {
 			out = append(out, fStaleIdxTbl)
+		}
+		if !rewritten && inAnyIndex(t, x.name) && typeChanged {
+			out = append(out, fModifyIdxStore)
 		}
 		if x.col.typ.k != kStr {
 			for _, r := range t.rows {
@@ -283,6 +288,10 @@ func regions(o op, t *table, next *table) []string {
 			if t.pk[0] != x.from {
 				out = append(out, fPkOrder)
 			}
+		}
+	case opAddPK, opDropPK:
+		if pkMoves && len(t.idx) > 0 {
+			out = append(out, fStaleIdxTbl)
 		}
 	case opAddIndex:
 		if x.ix.unique {
